@@ -14,7 +14,8 @@ in : {'batches': [{'clock': 'system'|'tempo'|'app', 'tempo': '2', 'past': bool, 
      kind 'plain' (python function number obj passed itself: every sched makes a new queue item),
           'wrap' (Function object number obj: the same object again = re-add), 'rout' (Routine object number obj);
      k = slot (1/16 s or beat; equal k = tie); nested = [[label, delta slots, nested], ...] scheduled by the
-     task while it wakes (plain functions).
+     task while it wakes (plain functions); an optional last element 'inf' / 'nan' is what the task ANSWERS
+     (its returned delta: never rescheduled).
 out: {'out': [{'log': [label, ...], 'complete': bool, 'added': [[label, time repr, parent label|None], ...]}, ...]}
 """
 import json, logging, os, sys, threading, time, warnings
@@ -50,11 +51,13 @@ def run_batch(b):
         return None
 
     def child(spec, parent):
-        label, delta, nested = spec
+        label, delta, nested = spec[:3]
+        ret = spec[3] if len(spec) > 3 else None
         def g():
             log.append(label)
             for n in nested:
                 child(n, label)
+            return None if ret is None else float(ret)     # 'inf' / 'nan': never rescheduled
         clock.sched(delta / 16, g)              # from inside a wake-up: relative to the task's logical time
         added.append([label, due(g), parent])
 
@@ -64,10 +67,11 @@ def run_batch(b):
         if obj not in shared:
             cell = {'pending': []}
             def f():
-                label, nested = cell['pending'].pop(0) if cell['pending'] else ('f%s?' % obj, [])
+                label, nested, ret = cell['pending'].pop(0) if cell['pending'] else ('f%s?' % obj, [], None)
                 log.append(label)
                 for n in nested:
                     child(n, label)
+                return None if ret is None else float(ret)  # 'inf' / 'nan': never rescheduled
             shared[obj] = (f, cell)
         return shared[obj]
 
@@ -80,11 +84,13 @@ def run_batch(b):
     def batch():
         base = (main.elapsed_time() if app else main.current_tt._seconds if clock is SystemClock else clock.beats)
         base += -1.0 if b.get('past') else 0.5
-        for label, kind, obj, k, nested in b['items']:
+        for it in b['items']:
+            label, kind, obj, k, nested = it[:5]
+            ret = it[5] if len(it) > 5 else None
             t = base + k / 16
             if kind == 'plain':
                 f, cell = plain(obj)
-                cell['pending'].append((label, nested))   # valid: slots of one obj increase with scheduling order
+                cell['pending'].append((label, nested, ret))   # valid: slots of one obj increase with scheduling order
                 target = f
             elif kind == 'wrap':
                 if obj not in wraps:
